@@ -57,6 +57,9 @@ def configs(tier):
                 _cost=math.factorial(d) * m ** (q * d * (d if strat == 'product' else 1)))
         for (d, m, q) in pfi:
             add(group='inc', cls='IncrementalPFI', d=d, m=m, q=q, imputer=strat, storage='batch', _cost=m ** (q * d))
+    for strat in ('joint', 'product'):
+        add(group='inc', cls='IncrementalSage', d=2, m=2, q=1, imputer=strat, storage='batch', context_key=True, _cost=16)
+        add(group='inc', cls='IncrementalPFI', d=2, m=2, q=1, imputer=strat, storage='batch', context_key=True, _cost=16)
     for st in ('interval', 'geometric', 'uniform'):
         add(group='inc', cls='IncrementalSage', d=2, m=2, q=1, imputer='joint', storage=st, _cost=16)
         add(group='inc', cls='IncrementalPFI', d=2, m=3, q=1, imputer='joint', storage=st, _cost=16)
